@@ -11,7 +11,7 @@ use proptest::prelude::*;
 use serde::{Deserialize, Serialize};
 use std::collections::BTreeMap;
 
-pub const RULE: &str = "(D0) every protected name (16 keywords / inputs / constants / inf / infinity and every name of get_built_in_function_idents()) x 15 binding forms (plain, output, nested in parentheses / list / record / operator chain / conditional, function value; inside a lambda body or do-block; and as a do-block local / parameter that is read back - which must fail or give the bound value): the top-level forms must fail, and in all forms what typeof / to_string / field access observe of the name at top level, and the set of root names, must be unchanged. (D1) every sequence up to length 4 (thorough: 5 over a 29-template core) over an alphabet of statement templates on names a, b: bind, rebind, copy, nested assignment `a = (b = 5) + 1`, self-nested `a = (a = 1) + 1`, list-nested, partially failing `[a = 1, nope]`, `output a`, `output a = 1`, do-block shadowing (also by the block's `return name = ...` statement) / nested assignment inside a do-block / do-block returning a closure, functions whose parameters reuse a / b, calls, closures over a (reading it, rebinding it in a do-block) called at top level and from inside a function whose parameter is called a, assignment inside a lambda body (with parameters; anonymous without parameters, with and without captured names), failing statements, attempts to bind keywords, inputs, constants and built-in names; each statement is evaluated like a REPL line and compared with a bind-once reference model (success / failure, the whole root environment, values). (D2) random sessions of 5-40 generated statements with rebinding attempts and failing statements, checked with history invariants: snapshot monotonicity, no insert into the root environment for a key it holds (hook H2), reserved names never bound, root names are a subset of the names assigned in top-level position. (D3) sessions of 2-7 one-line statements (heap-valued bindings, nested bindings inside lines that fail later, rebinding attempts, allocating lines) typed into the interactive CLI on a pseudo-terminal; afterwards every name is printed and must show what the same lines give in-process. (D4) 6 ways of keeping an anonymous function whose body mentions an unbound name x 7 inner scopes that bind that name to the function value (do-block local, parameter, nested block, block inside a function / a via callback, failing block, via a second local) x 4 names: what the function does when reached through its container (call results and failures, display, self-equality) must be the same before and after, and the name must not appear at top level. (D5) `x = C[(x = V)]` and `output x = C[(x = V)]` for 38 contexts C (operands, list / record items, computed keys, list / record / argument spreads, index and field targets, conditions and branches, prefix / postfix operands, ??, pipelines, calls): the statement must be refused, x keeps the value of the inner binding and the root environment is never overwritten. Non-trivial = the history contains a (re)binding attempt on an already bound or reserved name, or a shadowing scope; distinct by the statement sequence.";
+pub const RULE: &str = "(D0) every protected name (16 keywords / inputs / constants / inf / infinity and every name of get_built_in_function_idents()) x 15 binding forms (plain, output, nested in parentheses / list / record / operator chain / conditional, function value; inside a lambda body or do-block; and as a do-block local / parameter that is read back - which must fail or give the bound value): the top-level forms must fail, and in all forms what typeof / to_string / field access observe of the name at top level, and the set of root names, must be unchanged. (D1) every sequence up to length 4 (thorough: 5 over a 29-template core) over an alphabet of statement templates on names a, b: bind, rebind, copy, nested assignment `a = (b = 5) + 1`, self-nested `a = (a = 1) + 1`, list-nested, partially failing `[a = 1, nope]`, `output a`, `output a = 1`, do-block shadowing (also by the block's `return name = ...` statement) / nested assignment inside a do-block / do-block returning a closure, functions whose parameters reuse a / b, calls, closures over a (reading it, rebinding it in a do-block) called at top level and from inside a function whose parameter is called a, assignment inside a lambda body (with parameters; anonymous without parameters, with and without captured names), failing statements, attempts to bind keywords, inputs, constants and built-in names; each statement is evaluated like a REPL line and compared with a bind-once reference model (success / failure, the whole root environment, values). (D2) random sessions of 5-40 generated statements with rebinding attempts and failing statements, checked with history invariants: snapshot monotonicity, no insert into the root environment for a key it holds (hook H2), reserved names never bound, root names are a subset of the names assigned in top-level position. (D3) sessions of 2-7 one-line statements (heap-valued bindings, nested bindings inside lines that fail later, rebinding attempts, allocating lines) typed into the interactive CLI on a pseudo-terminal; afterwards every name is printed and must show what the same lines give in-process. (D4) 6 ways of keeping an anonymous function whose body mentions an unbound name x 7 inner scopes that bind that name to the function value (do-block local, parameter, nested block, block inside a function / a via callback, failing block, via a second local) x 4 names: what the function does when reached through its container (call results and failures, display, self-equality) must be the same before and after, and the name must not appear at top level. (D5) `x = C[(x = V)]` and `output x = C[(x = V)]` for 38 contexts C (operands, list / record items, computed keys, list / record / argument spreads, index and field targets, conditions and branches, prefix / postfix operands, ??, pipelines, calls): the statement must be refused, x keeps the value of the inner binding and the root environment is never overwritten. (D6) a self-recursive named function handed over by value (argument, alias, via / map element) to a parameter list, do-block or callback that binds the function's own name to something else: the function still calls itself. Non-trivial = the history contains a (re)binding attempt on an already bound or reserved name, or a shadowing scope; distinct by the statement sequence.";
 pub const ASSUMPTIONS: &[&str] = &[
     "hook H2 (thread-local log of Environment::insert) is a monitor only; with the feature off the code is unchanged",
     "a statement that fails half-way may keep the bindings its already-evaluated inner assignments made (the statement only requires that bound names never change)",
@@ -319,7 +319,23 @@ pub enum Case {
     /// D5: `x = CONTEXT[(x = V)]` - the right-hand side binds the very name being bound, from
     /// inside each kind of sub-expression
     SelfNested { context: u8 },
+    /// D6: a recursive named function handed over by value to a scope that binds the function's
+    /// own name to something else: the inner scope's binding must not reach into the function
+    OwnName { variant: u8 },
 }
+
+pub const OWN_NAME: &[(&str, &str)] = &[
+    ("((f, count) => f(2))(count, n => 100)", "2"),
+    ("((f, count) => f(3))(count, 7)", "3"),
+    ("do {\n  keep = count\n  count = n => 100\n  return keep(2)\n}", "2"),
+    ("([count] via ((f, count) => f(2)))[0]", "2"),
+    ("map([count], (f, count) => f(2))[0]", "2"),
+    ("((count) => alias(2))(n => 100)", "2"),
+    ("((count) => ([2] via alias))(5)", "[2]"),
+    ("do {\n  count = 1\n  return alias(4)\n}", "4"),
+    ("((even, odd) => even(4))(even, n => true)", "true"),
+    ("((f, odd) => f(3))(even, n => true)", "false"),
+];
 
 /// (right-hand side with the inner binding, source of the value the inner binding gives x)
 pub const SELF_NESTED: &[(&str, &str)] = &[
@@ -618,6 +634,33 @@ impl Check for History {
                 }
                 Ok(())
             }
+            Case::OwnName { variant } => {
+                let (src, want_src) = OWN_NAME[*variant as usize % OWN_NAME.len()];
+                ctx.label("function-by-value-under-its-own-name");
+                ctx.nontrivial(hash_str(src));
+                let sess = Sess::new();
+                sess.set_inputs(&[]);
+                for l in ["count = n => if n <= 0 then 0 else 1 + count(n - 1)", "alias = count", "even = n => if n == 0 then true else odd(n - 1)", "odd = n => if n == 0 then false else even(n - 1)"] {
+                    if let Err(e) = sess.obs(l) {
+                        fail!("own-name:setup", "`{}` fails: {:?}", l, e);
+                    }
+                }
+                // `odd` is late-bound inside `even` (mutual recursion): a caller that binds `odd` is seen by design
+                let want = if src.contains("odd) => even(4)") || src.contains("(f, odd)") { None } else { Some(Sess::new().obs(want_src)) };
+                let names_before: Vec<String> = snapshot(&sess).keys().cloned().collect();
+                let got = sess.obs(src);
+                if let Some(want) = want {
+                    let same = matches!((&got, &want), (Ok(a), Ok(b)) if a.same_nanclass(b));
+                    if !same {
+                        fail!(format!("own-name:inner-binding-reaches-function:{}", if got.is_ok() { "wrong-value" } else { "fails" }), "with count = n => if n <= 0 then 0 else 1 + count(n - 1) and alias = count,\n`{}` gives {:?}, expected {:?}", src, got, want);
+                    }
+                }
+                let names_after: Vec<String> = snapshot(&sess).keys().cloned().collect();
+                if names_after != names_before {
+                    fail!("own-name:root-names-changed", "after `{}` the top-level names are {:?} (before: {:?})", src, names_after, names_before);
+                }
+                Ok(())
+            }
             Case::Repl(seq) => {
                 ctx.label("interactive-repl");
                 ctx.nontrivial(hash_str(&format!("repl{:?}", seq)));
@@ -844,6 +887,8 @@ pub fn run(ctx: &mut Ctx) {
     ctx.run_enum(&History, leaks.into_iter(), false);
     // D5: the right-hand side binds the name being bound, from inside every kind of sub-expression
     ctx.run_enum(&History, (0..SELF_NESTED.len() as u8).map(|c| Case::SelfNested { context: c }), false);
+    // D6: a recursive function used by value where its own name is bound to something else
+    ctx.run_enum(&History, (0..OWN_NAME.len() as u8).map(|v| Case::OwnName { variant: v }), false);
     // D3: interactive sessions on a pseudo-terminal vs the same lines in-process
     let mut repl = vec![Case::Repl(vec![0, 1, 8]), Case::Repl(vec![3, 11, 6]), Case::Repl(vec![15, 2, 10, 8]), Case::Repl(vec![12, 13, 14, 5, 9])];
     repl.truncate(if thorough { 4 } else { 4 });
